@@ -3,7 +3,7 @@
 # functions serve; any exit != 0 is a FALSE ALARM. Usage: selftest/neutral_sweep.sh [pattern]
 cd "$(dirname "$0")/.."
 V=$(pwd)
-declare -A P=( [N1]="C14 C05" [N2]="C14 C07 C15 C04 C20" [NA]="C05 C09 C12 C17 C19" [NB]="C14 C18 C07 C08 C13 C02 C16 C09" [NC]="C06 C08 C07 C02 C15 C12 C09 C14" [ND]="C04 C20 C03 C01" [NE]="C10 C11 C19" [NF]="C02 C01 C16 C07 C08 C13" [NG]="C05 C09 C12 C17 C19" [NH]="C14 C18 C07 C08 C13 C02 C16 C09 C15" [NI]="C06 C08 C07 C02 C15 C12 C09 C14 C16" [NJ]="C04 C20 C03 C01" [NK]="C10 C11 C19" [NL]="C02 C01 C16 C07 C08 C13 C12" )
+declare -A P=( [N1]="C14 C05" [N2]="C14 C07 C15 C04 C20" [NA]="C05 C09 C12 C17 C19" [NB]="C14 C18 C07 C08 C13 C02 C16 C09" [NC]="C06 C08 C07 C02 C15 C12 C09 C14" [ND]="C04 C20 C03 C01" [NE]="C10 C11 C19" [NF]="C02 C01 C16 C07 C08 C13" [NG]="C05 C09 C12 C17 C19" [NH]="C14 C18 C07 C08 C13 C02 C16 C09 C15" [NI]="C06 C08 C07 C02 C15 C12 C09 C14 C16" [NJ]="C04 C20 C03 C01" [NK]="C10 C11 C19" [NL]="C02 C01 C16 C07 C08 C13 C12" [NM]="C07 C12" )
 fail=0
 for f in selftest/neutral/${1:-}*.diff; do
   b=$(basename $f .diff); k=${b%%-*}
